@@ -131,6 +131,9 @@ structure Machine where
   aySel : Nat := 0
   /-- `AymPrecise::registers`: what the sound generator has been programmed with -/
   ayChip : Bytes := List.replicate 14 0
+  /-- the envelope generator sits at the start of its shape (`AymPrecise::set_envelope_shape` was
+  the last thing that happened to it): true after any write of register 13, false once it has run -/
+  ayEnvAtStart : Bool := true
   /-- `settings.ay_enabled` / `mixer.use_ay` -/
   ayEnabled : Bool := false
   /-- Kempston joystick present -/
@@ -351,9 +354,14 @@ def snaLoad (fx : Fixes) (f : Bytes) (r : Machine) : Except Err Machine :=
 def chipWrite (chip : Bytes) (reg : Nat) (v : Byte) : Bytes :=
   if reg < 14 then chip.set reg v else chip
 
+/-- `AymPrecise::write_register` on the envelope generator: register 13 restarts the shape, even
+when the value written is the one already there -/
+def envWrite (env : Bool) (reg : Nat) : Bool := if reg = 13 then true else env
+
 /-- port write to the AY data port (`ZXAyChip::write`) -/
 def Machine.ayWrite (m : Machine) (v : Byte) : Machine :=
-  { m with ayRegs := m.ayRegs.set m.aySel v, ayChip := chipWrite m.ayChip m.aySel v }
+  { m with ayRegs := m.ayRegs.set m.aySel v, ayChip := chipWrite m.ayChip m.aySel v,
+           ayEnvAtStart := envWrite m.ayEnvAtStart m.aySel }
 
 /-- `select_reg` -/
 def Machine.aySelect (m : Machine) (v : Byte) : Machine :=
@@ -363,10 +371,14 @@ def Machine.aySelect (m : Machine) (v : Byte) : Machine :=
 def chipProgram (chip : Bytes) (regs : Bytes) : Bytes :=
   (List.range 14).foldl (fun ch k => chipWrite ch k (regs.getD k 0)) chip
 
+/-- the envelope generator while registers 0..13 are written in order -/
+def envProgram (env : Bool) : Bool := (List.range 14).foldl envWrite env
+
 /-- `set_regs(&data[..16])` -/
 def Machine.aySetRegs (fx : Fixes) (m : Machine) (regs : Bytes) : Machine :=
   { m with ayRegs := regs.take 16,
-           ayChip := if fx.ayWriteThrough then chipProgram m.ayChip regs else m.ayChip }
+           ayChip := if fx.ayWriteThrough then chipProgram m.ayChip regs else m.ayChip,
+           ayEnvAtStart := if fx.ayWriteThrough then envProgram m.ayEnvAtStart else m.ayEnvAtStart }
 
 /-- a program writing registers 0..13 through the two AY ports (select, then data) -/
 def Machine.ayViaPorts (m : Machine) (regs : Bytes) : Machine :=
